@@ -109,6 +109,26 @@ func checkC17(c *Ctx) {
 						}
 					}
 					if !okOwner {
+						// a private helper of the package shared by a layout function and another method of the tree
+						// (`parentAt(pos)` used by Parent and PeersOf): its formula is the layout function's, which the
+						// index algebra below evaluates through the helper
+						ci := callIndexOf(p)
+						df := declaredParent(fn)
+						if df.Object() != nil && !df.Object().Exported() && !ci.asValue[df] && len(ci.callers[df]) > 0 {
+							okOwner = false
+							all := true
+							for _, r := range ci.callers[df] {
+								if funcPkgPath(r.In) != funcPkgPath(df) || r.Kind == "go" {
+									all = false
+								}
+								if allowed[shortName(declaredParent(r.In))] {
+									okOwner = true
+								}
+							}
+							okOwner = okOwner && all
+						}
+					}
+					if !okOwner {
 						extra = append(extra, shortName(fn)+" ("+p.InstrPos(in)+")")
 					}
 				}
@@ -124,6 +144,10 @@ func checkC17(c *Ctx) {
 				continue
 			}
 			ok := len(callsIn(fn, false, func(cc *ssa.CallCommon) bool { return cc.StaticCallee() != nil && cc.StaticCallee().Name() == d.must })) > 0
+			if !ok && d.fn == "IsRoot" && c17IsRootDirect(p, fn) {
+				c.Held("C17.2", "Tree.IsRoot derives from "+d.must, p.FuncPos(fn), "position 0 of the table is compared with the replicaID parameter directly (the replica's position is 0 exactly then)")
+				continue
+			}
 			c.Check(ok, "C17.2", "Tree."+d.fn+" derives from "+d.must, p.FuncPos(fn), "no independent layout computation", d.fn+" does not use "+d.must)
 		}
 	}
@@ -156,6 +180,9 @@ func checkC17(c *Ctx) {
 				}
 			}
 		})
+		if n == 0 && q == "IsRoot" && c17IsRootDirect(p, fn) {
+			n = 1
+		}
 		c.Check(n > 0 && okArg, "C17.2", "Tree."+q+": answers for the replica it is asked about", p.FuncPos(fn),
 			"every position look-up in it uses the replicaID parameter", "a position look-up uses something other than the replicaID parameter (e.g. the tree's own id): different replicas' views of the tree disagree")
 	}
@@ -731,4 +758,26 @@ func c17KauriUsesChildList(c *Ctx) {
 // helper merely forwards, so that the Keyer names the call by what it forwards to -- slices.Index over the position table.
 func isPosKey(k, posName string) bool {
 	return strings.Contains(k, posName+"(") || strings.Contains(k, "slices.Index[") && strings.Contains(k, "hs/internal/tree.Tree.treePosToID, ")
+}
+
+// c17IsRootDirect: IsRoot answers true exactly on `treePosToID[0] == replicaID` (for a non-empty table), written out.
+func c17IsRootDirect(p *Prog, fn *ssa.Function) bool {
+	fl := NewFlow(p, fn)
+	ways := trueEdges(fl)
+	if len(ways) == 0 {
+		return false
+	}
+	for _, w := range ways {
+		if !hasCmp(w, "==", func(k string) bool { return strings.HasSuffix(k, kTree+"treePosToID[c:0]") }, is("p1")) {
+			return false
+		}
+	}
+	// and false only when that comparison fails or the table is empty: the function contains no other test
+	nIf := 0
+	for _, b := range fn.Blocks {
+		if _, ok := b.Instrs[len(b.Instrs)-1].(*ssa.If); ok {
+			nIf++
+		}
+	}
+	return nIf <= 1 && len(callsIn(fn, false, func(cc *ssa.CallCommon) bool { _, isB := cc.Value.(*ssa.Builtin); return !isB })) == 0
 }
